@@ -76,23 +76,39 @@ theorem finish_run {seq : List Nat} {base mj : Nat} {e : Enc} {s : St} {O : List
 theorem good_init (ln lr : Option Nat) : Good {} { pc := 0, lastNote := ln, lastRest := lr } [] :=
   ⟨fun h => absurd rfl h, fun h => absurd rfl h, rfl, .inl ⟨by decide, rfl, rfl⟩⟩
 
+/-- from pc 0 with empty stacks and arbitrary register contents, the interpreter plays exactly `T`
+and then stops at a `FINISH` (or at the loop-back jump when the allowed number of jumps is used up) -/
+def Plays (bytes : List Nat) (base mj : Nat) (ln lr : Option Nat) (T : List Tk) : Prop :=
+  ∃ s', Reach bytes base mj { pc := 0, lastNote := ln, lastRest := lr } s' ∧
+    step bytes base mj s' = .error .finished ∧ s'.out = T.reverse
+
+theorem Plays.run_eq {bytes : List Nat} {base mj : Nat} {ln lr : Option Nat} {T : List Tk}
+    (h : Plays bytes base mj ln lr T) (maxTicks : Nat) (hlen : T.length ≤ maxTicks) :
+    ∃ n, ∀ fuel, fuel > n →
+      Seq.run bytes base mj maxTicks fuel { pc := 0, lastNote := ln, lastRest := lr } = (T, .finished) := by
+  obtain ⟨s', r, hfin, ho⟩ := h
+  obtain ⟨n, hn⟩ := run_of_reach (maxTicks := maxTicks) r hfin (by rw [ho]; simpa using hlen)
+  exact ⟨n, fun fuel hf => by rw [hn fuel hf, ho]; simp⟩
+
+/-- for every fuel and tick limit the run never stops with `badRead`, `badOp`, `noLength` or
+`loopUnderflow` -/
+theorem Plays.safe {bytes : List Nat} {base mj : Nat} {ln lr : Option Nat} {T : List Tk}
+    (h : Plays bytes base mj ln lr T) (maxTicks fuel : Nat) :
+    (Seq.run bytes base mj maxTicks fuel { pc := 0, lastNote := ln, lastRest := lr }).2 ∈
+      [Stop.finished, Stop.fuel, Stop.tooManyTicks] := by
+  obtain ⟨s', r, hfin, _⟩ := h
+  rcases run_stop_of_reach (maxTicks := maxTicks) r hfin fuel with h | h | h <;> simp [h]
+
 /-- **C02, linear fragment.** -/
 theorem codec_roundtrip_linear (nS nM : Nat) (es : List MEv) (hv : ∀ ev ∈ es, linEv ev = true) (farg : Nat) :
     ∃ bytes, convertTrack nS nM (es ++ [⟨mds_FINISH, farg⟩]) = .ok bytes ∧
-      ∀ (base mj maxTicks : Nat) (ln lr : Option Nat), (ticks nS nM es).length ≤ maxTicks →
-        ∃ n, ∀ fuel, fuel > n →
-          run bytes base mj maxTicks fuel { pc := 0, lastNote := ln, lastRest := lr } =
-            (ticks nS nM es, .finished) := by
+      ∀ (base mj : Nat) (ln lr : Option Nat), Plays bytes base mj ln lr (ticks nS nM es) := by
   obtain ⟨e1, he1, _, _, _, sem⟩ := encAll_lin nS nM es hv {}
   refine ⟨e1.out ++ [mds_FINISH], ?_, ?_⟩
   · simp [convertTrack, encAll_append, he1, encAll, encEv_finish, Except.map]
-  · intro base mj maxTicks ln lr hlen
+  · intro base mj ln lr
     obtain ⟨s1, r1, f1, g1⟩ := sem (e1.out ++ [mds_FINISH]) base mj _ [] (List.prefix_append _ _) (good_init ln lr)
     obtain ⟨s2, r2, hfin, ho⟩ := finish_run (base := base) (mj := mj) g1 (f1.calls) (List.prefix_refl _)
-    have ho' : s2.out = (ticks nS nM es).reverse := by simpa using ho
-    obtain ⟨n, hn⟩ := run_of_reach (maxTicks := maxTicks) (r1.trans r2) hfin (by rw [ho']; simpa using hlen)
-    refine ⟨n, fun fuel hf => ?_⟩
-    rw [hn fuel hf, ho']
-    simp
+    exact ⟨s2, r1.trans r2, hfin, by simpa using ho⟩
 
 end Ctrmml.Codec
